@@ -76,13 +76,16 @@ type c10gClient struct {
 	// has the same database data as the client (IPv4 family and the
 	// IPv6-family IPv4-mapped form).
 	ecs []string
+	// neighbour is another address of the same cache network (/24, /56) with
+	// the same database record.
+	neighbour string
 }
 
 var c10gTargets = []c10gClient{
-	{addr: "216.160.83.57", asn: 209, ecs: []string{"216.160.83.56/29", "::ffff:216.160.83.56/125"}},
-	{addr: "89.160.20.130", asn: 29518, ecs: []string{"89.160.20.128/25", "::ffff:89.160.20.128/121"}},
-	{addr: "1.128.0.5", asn: 1221, ecs: []string{"1.128.0.0/24", "::ffff:1.128.0.0/120"}},
-	{addr: "2001:218::1", asn: 0, ecs: []string{"2001:218::/32"}},
+	{addr: "216.160.83.57", asn: 209, ecs: []string{"216.160.83.56/29", "::ffff:216.160.83.56/125"}, neighbour: "216.160.83.58"},
+	{addr: "89.160.20.130", asn: 29518, ecs: []string{"89.160.20.128/25", "::ffff:89.160.20.128/121"}, neighbour: "89.160.20.131"},
+	{addr: "1.128.0.5", asn: 1221, ecs: []string{"1.128.0.0/24", "::ffff:1.128.0.0/120"}, neighbour: "1.128.0.6"},
+	{addr: "2001:218::1", asn: 0, ecs: []string{"2001:218::/32"}, neighbour: "2001:218::2"},
 }
 
 // c10gPrimers are the other clients: neither is in a list of any profile.
@@ -156,6 +159,14 @@ func c10gSelfCheck() {
 			}
 		}
 		check(cl.addr)
+		if cl.neighbour != "" {
+			check(cl.neighbour)
+			a, _ := f.Data("", netip.MustParseAddr(cl.addr))
+			b, _ := f.Data("", netip.MustParseAddr(cl.neighbour))
+			if (a == nil) != (b == nil) || (a != nil && *a != *b) {
+				vrt.Fatalf("geoip: %s and its neighbour %s have different database data: %+v / %+v", cl.addr, cl.neighbour, a, b)
+			}
+		}
 		for _, e := range cl.ecs {
 			check(netip.MustParsePrefix(e).Addr().Unmap().String())
 		}
@@ -172,7 +183,7 @@ func c10gRun(r *vrt.Run, c c10gCase) (fs []vrt.Finding) {
 		if p.ECS != "" {
 			ecs = "ECS " + p.ECS
 		}
-		hist = append(hist, fmt.Sprintf("%s %s from %s (%s) -> %d response(s)", p.Name, dns.Type(p.QType), p.Client, ecs, len(po.Writes)))
+		hist = append(hist, fmt.Sprintf("%s %s from %s over %s (%s) -> %d response(s)", p.Name, dns.Type(p.QType), p.Client, p.Proto, ecs, len(po.Writes)))
 	}
 	cachedBefore := s.caches.items()
 	o := s.serve(c.Q, c10ReqID)
@@ -219,6 +230,15 @@ func c10gRun(r *vrt.Run, c c10gCase) (fs []vrt.Finding) {
 	return fs
 }
 
+// c10gNeighbourECS are the ECS options of a neighbour's priming queries.
+func c10gNeighbourECS(neighbour string) []string {
+	if netip.MustParseAddr(neighbour).Is4() {
+		return []string{"", "10.9.8.0/24", "2001:db8:77::/48"}
+	}
+
+	return []string{"", "2001:db8:77::/48", "10.9.8.0/24"}
+}
+
 // c10gPart runs the part.
 func c10gPart(r *vrt.Run) {
 	c10gSelfCheck()
@@ -231,7 +251,7 @@ func c10gPart(r *vrt.Run) {
 	maxPrime := vrt.Pick(r, 1, 2)
 	r.Bound("realgeo_profiles", len(c10gProfiles))
 	r.Bound("realgeo_priming_queries", maxPrime)
-	r.Bound("realgeo_priming_alphabet", len(ecsAll)*len(c10gPrimers))
+	r.Bound("realgeo_priming_alphabet", len(ecsAll)*len(c10gPrimers)+len(c10Protos)*3)
 	r.Bound("realgeo_clients", len(c10gTargets))
 
 	var primes []c10Query
@@ -247,10 +267,24 @@ func c10gPart(r *vrt.Run) {
 				for _, proto := range c10Protos {
 					for _, t := range c10gTargets {
 						q := c10Query{Client: t.addr, ASN: t.asn, Name: "clean.test.", QType: dns.TypeA, Proto: proto}
-						vrt.Sequences(len(primes), 1, maxPrime, func(seq []int) {
+						// Queries of an anonymous NEIGHBOUR of the client (same
+						// cache network, same database record), which no rule
+						// rejects: without ECS, with an ECS option whose network
+						// has no location (the client's location is then used),
+						// and with an ECS option of the other address family;
+						// over every protocol.
+						all := append([]c10Query{}, primes...)
+						for _, nproto := range c10Protos {
+							for _, e := range c10gNeighbourECS(t.neighbour) {
+								all = append(all, c10Query{
+									Client: t.neighbour, ASN: t.asn, Name: "other.test.", QType: dns.TypeA, Proto: nproto, ECS: e, Anonymous: true,
+								})
+							}
+						}
+						vrt.Sequences(len(all), 1, maxPrime, func(seq []int) {
 							c := c10gCase{Conf: conf, Q: q}
 							for _, i := range seq {
-								c.Prime = append(c.Prime, primes[i])
+								c.Prime = append(c.Prime, all[i])
 							}
 							emit(c)
 						})
